@@ -131,9 +131,30 @@ func trunc(s string) string {
 }
 
 func runFormat(r *hv.Rand, f *xw.Format, nValues, mutPerValue, nRandom int) {
-	for k := 0; k < nValues; k++ {
-		v := f.Gen(r)
-		enc := valueCase(r, f, v, "value")
+	if f.Corpus != nil {
+		for _, b := range f.Corpus() {
+			bytesCase(r, f, b, "corpus")
+			if f == xw.Ag {
+				bytesCase(r, xw.ConfDen, b, "corpus")
+			}
+		}
+	}
+	var must []xw.Value
+	if f.Must != nil {
+		must = f.Must()
+	}
+	for k := 0; k < len(must)+nValues; k++ {
+		var v xw.Value
+		class := "value"
+		if k < len(must) {
+			v, class = must[k], "boundary"
+		} else {
+			v = f.Gen(r)
+		}
+		enc := valueCase(r, f, v, class)
+		if k < len(must) && k%3 != 0 { // mutate a third of the boundary encodings
+			continue
+		}
 		if enc == nil || len(enc) > 3000 {
 			continue
 		}
@@ -377,16 +398,16 @@ func main() {
 		nv, mut, rnd int
 	}
 	plans := []plan{
-		{xw.WString, hv.Scale(24, 400), 8, hv.Scale(12, 200)},
-		{xw.Name, hv.Scale(28, 400), 8, hv.Scale(12, 200)},
-		{xw.Chunk, hv.Scale(36, 400), 8, hv.Scale(12, 200)},
-		{xw.Cert, hv.Scale(24, 300), 10, hv.Scale(8, 100)},
-		{xw.Intent, hv.Scale(40, 500), 12, hv.Scale(8, 100)},
-		{xw.Ag, hv.Scale(36, 500), 5, hv.Scale(12, 200)},
-		{xw.Proxy, hv.Scale(14, 200), 5, hv.Scale(8, 100)},
-		{xw.Exec, hv.Scale(26, 300), 8, hv.Scale(12, 200)},
-		{xw.UserAuth, hv.Scale(26, 300), 6, hv.Scale(12, 200)},
-		{xw.Pf, hv.Scale(36, 400), 7, hv.Scale(12, 200)},
+		{xw.WString, hv.Scale(12, 400), 7, hv.Scale(10, 200)},
+		{xw.Name, hv.Scale(14, 400), 7, hv.Scale(10, 200)},
+		{xw.Chunk, hv.Scale(20, 400), 7, hv.Scale(10, 200)},
+		{xw.Cert, hv.Scale(10, 300), 8, hv.Scale(6, 100)},
+		{xw.Intent, hv.Scale(20, 500), 10, hv.Scale(6, 100)},
+		{xw.Ag, hv.Scale(20, 500), 5, hv.Scale(10, 200)},
+		{xw.Proxy, hv.Scale(8, 200), 5, hv.Scale(6, 100)},
+		{xw.Exec, hv.Scale(14, 300), 8, hv.Scale(10, 200)},
+		{xw.UserAuth, hv.Scale(14, 300), 6, hv.Scale(10, 200)},
+		{xw.Pf, hv.Scale(16, 400), 7, hv.Scale(10, 200)},
 	}
 	for _, p := range plans {
 		runFormat(r, p.f, p.nv, p.mut, p.rnd)
